@@ -29,8 +29,32 @@ pub fn clear_current_case() {
     let _ = CASE.try_with(|c| c.set((std::ptr::null(), 0)));
 }
 
+/// SIGABRT (what a stack overflow in a Rust thread ends in, as does `abort()`): the case that was running on the dying thread is
+/// saved as the replay and reported, instead of the whole check vanishing with a signal exit status.
+pub fn install_abort_handler() {
+    extern "C" fn on_abort(_sig: libc::c_int) {
+        report_and_exit(b"{\"signature\":\"process-abort\",\"detail\":\"the process was about to die with SIGABRT (stack overflow or abort()) while this case was running\",\"case\":");
+        // not inside a case on this thread: die the ordinary way
+        unsafe {
+            libc::signal(libc::SIGABRT, libc::SIG_DFL);
+            libc::raise(libc::SIGABRT);
+        }
+    }
+    unsafe {
+        let mut sa: libc::sigaction = std::mem::zeroed();
+        sa.sa_sigaction = on_abort as usize;
+        sa.sa_flags = libc::SA_ONSTACK;
+        libc::sigemptyset(&mut sa.sa_mask);
+        libc::sigaction(libc::SIGABRT, &sa, std::ptr::null_mut());
+    }
+}
+
 #[cold]
 fn huge_request(_size: usize) {
+    report_and_exit(b"{\"signature\":\"huge-allocation\",\"detail\":\"the library requested an allocation larger than 64 GiB\",\"case\":");
+}
+
+fn report_and_exit(pre: &[u8]) {
     // no allocation allowed here: raw libc calls only
     let case = CASE.try_with(|c| c.get()).unwrap_or((std::ptr::null(), 0));
     let path = ABORT_PATH.try_with(|c| c.get()).unwrap_or((std::ptr::null(), 0));
@@ -41,7 +65,6 @@ fn huge_request(_size: usize) {
     unsafe {
         let fd = libc::open(path.0 as *const libc::c_char, libc::O_WRONLY | libc::O_CREAT | libc::O_TRUNC, 0o644);
         if fd >= 0 {
-            let pre = b"{\"signature\":\"huge-allocation\",\"detail\":\"the library requested an allocation larger than 64 GiB\",\"case\":";
             libc::write(fd, pre.as_ptr() as *const libc::c_void, pre.len());
             libc::write(fd, case.0 as *const libc::c_void, case.1);
             libc::write(fd, b"}\n".as_ptr() as *const libc::c_void, 2);
